@@ -585,8 +585,10 @@ def finish(ctx, level, level_rule, trusted_base, assumptions, build_error=None):
             try:
                 rc, out, err = run_side("implrun", [w["kind"] + "\t" + w["arg"]], timeout=120)
                 got = out[0] if out else "<no output>"
-                if got == w["failing_output"]:
+                if got == w.get("failing_output_full", w["failing_output"]):
                     ctx.notes.append("known finding %s: witness replayed on the implementation, still fails as recorded" % k["id"])
+                elif "failing_output_full" not in w and any("known finding %s" % k["id"] in n or k["id"] in str(n) for n in ctx.notes):
+                    pass    # `failing_output` is a projection which the property's own module has compared
                 else:
                     ctx.notes.append("known finding %s: witness no longer gives the recorded output (got %s)" % (k["id"], got[:200]))
             except Exception as e:  # never let the replay decide the verdict
